@@ -200,7 +200,9 @@ def make_data(kind, seed, npts):
 
 
 SYNTH_FUNS = ['x', 'a0*x', 'a0 + a1*x', 'a0 + a1*x + a2*x**2', 'a0 + a1*x + a2*x**2 + a3*x**3 + a4*x**4', 'a0*x**2', 'a0/x + a1',
-              'a0 + a1*x + a2*x**2 + a3*x**3', 'a0*x + a1*x**2 + a2*x**3 + a3*x**4 + a4*x**5', 'a0 + a1/x', 'x**2', 'a0*x**3 + a1']
+              'a0 + a1*x + a2*x**2 + a3*x**3', 'a0*x + a1*x**2 + a2*x**3 + a3*x**4 + a4*x**5', 'a0 + a1/x', 'x**2', 'a0*x**3 + a1',
+              # poles when parameters are set to zero (match.main's "zero a subset of the parameters" search)
+              '1/(a0*x + a1)', 'a0/(a1 + a2*x)', 'x/(a0 + a1*x + a2*x**2)']
 
 
 def write_synth_lib(d, comp, seed):
@@ -296,6 +298,11 @@ def fit_world(args, scratch):
                    make_data(like['cls'], int(args['data_seed']), int(args['npts'])), fmt=fmt)
     stages = args.get('stages') or ['test_all', 'fisher', 'match', 'combine']
     prog = list(args.get('pre') or []) + fit_program(like, comp, stages, args.get('opts') or {})
+    out_dir, temp_dir = like_paths(scratch, like)
+    wf = args.get('weak_fisher')
+    if wf and 'fisher' in stages:
+        k = max(i for i, op in enumerate(prog) if op[0] == 'fit' and op[1]['stage'] == 'fisher')
+        prog.insert(k + 1, ['weak_fisher', dict(path=os.path.relpath('%s/derivs_comp%d.dat' % (out_dir, comp), scratch), factor=float(wf))])
     res = run_world(world_spec(args, prog), scratch)
     out = slim(res, keep_choices=bool(args.get('keep_choices', True)))
     out_dir, temp_dir = like_paths(scratch, like)
@@ -316,7 +323,7 @@ def fit_world(args, scratch):
                 if nd != len(uniq):
                     probs.append(('rows', 'derivs', nd, len(uniq)))
             if 'match' in stages:
-                probs += rows.check_matches('%s/codelen_matches_comp%d.dat' % (out_dir, comp), allf, matches, stats)
+                probs += rows.check_matches('%s/codelen_matches_comp%d.dat' % (out_dir, comp), allf, matches, stats, kind, data)
             if 'combine' in stages:
                 probs += rows.check_final('%s/final_%d.dat' % (out_dir, comp), allf, kind, data, stats)
         except FileNotFoundError as e:
@@ -336,6 +343,11 @@ def fit_world(args, scratch):
                 os.makedirs(out2)
                 shutil.copy('%s/negloglike_comp%d.dat' % (out_dir, comp), out2)
                 st2 = [s for s in stages if s != 'test_all']
+                if wf:
+                    # the (scaled) second derivatives are an input as well: only the stages after them are re-run
+                    for fn in STAGE_FILES['fisher']:
+                        shutil.copy('%s/%s' % (out_dir, fn % comp), out2)
+                    st2 = [s for s in st2 if s != 'fisher']
                 a2 = dict(args, P=1, policy={'kind': 'lowest'}, plan=None, script=None)
                 res2 = run_world(world_spec(a2, fit_program(like2, comp, st2, {})), scratch)
                 if res2['violation'] is not None:
